@@ -29,6 +29,7 @@ package rueidiscompat
 import (
 	"context"
 	"encoding"
+	"errors"
 	"fmt"
 	"reflect"
 	"runtime"
@@ -50,6 +51,9 @@ const (
 )
 
 var Nil = rueidis.Nil
+
+// errInvalidBitCountIndex is what go-redis reports for a BitCount.Unit other than BYTE or BIT; no command is sent.
+var errInvalidBitCountIndex = errors.New("redis: invalid bitcount index")
 
 type Cmdable interface {
 	CoreCmdable
@@ -1233,6 +1237,8 @@ func (c *Compat) BitCount(ctx context.Context, key string, bitCount *BitCount) *
 		resp = c.client.Do(ctx, c.client.B().Bitcount().Key(key).Start(bitCount.Start).End(bitCount.End).Byte().Build())
 	case BitCountIndexBit:
 		resp = c.client.Do(ctx, c.client.B().Bitcount().Key(key).Start(bitCount.Start).End(bitCount.End).Bit().Build())
+	default:
+		resp = rueidis.NewErrorResult(errInvalidBitCountIndex)
 	}
 	return newIntCmd(resp)
 }
@@ -5979,6 +5985,8 @@ func (c CacheCompat) BitCount(ctx context.Context, key string, bitCount *BitCoun
 		resp = c.client.DoCache(ctx, c.client.B().Bitcount().Key(key).Start(bitCount.Start).End(bitCount.End).Byte().Cache(), c.ttl)
 	case BitCountIndexBit:
 		resp = c.client.DoCache(ctx, c.client.B().Bitcount().Key(key).Start(bitCount.Start).End(bitCount.End).Bit().Cache(), c.ttl)
+	default:
+		resp = rueidis.NewErrorResult(errInvalidBitCountIndex)
 	}
 	return newIntCmd(resp)
 }
